@@ -447,6 +447,7 @@ func cmdCheck(args []string) int {
 	runObligations(cfg, items)
 
 	violations := 0
+	replays := 0
 	var failed []*oblResult
 	knownHit := []string{}
 	for _, it := range items {
@@ -507,7 +508,12 @@ func cmdCheck(args []string) int {
 		rep := map[string]any{"property": prop, "obligation": it.Name, "kind": it.Kind, "clause": it.Src, "where": it.Where,
 			"solver": it.Solver, "result": it.Status, "expected": it.Expect, "solver_output": trunc(it.output, 4000), "all_solvers": it.allStats, "smt_file": it.File}
 		suffix := " no-failing-input-found"
-		if it.Status == "sat" {
+		if it.Status == "sat" && replays >= 4 {
+			// the check fails already; models and replays of further obligations only cost time
+			rep["outcome"] = "not-replayable"
+			rep["replay_detail"] = "not attempted: the replay budget of 4 per run is used up"
+		} else if it.Status == "sat" {
+			replays++
 			model := solve.Model(it.File, it.Solver, 20*time.Second)
 			rep["model"] = trunc(model, 20000)
 			outcome, detail := tryReplay(prog, it, model)
